@@ -131,10 +131,13 @@ def cases(tier, seed):
 PLUMB_GLOBS = ["a", "*", "**", "*.py", "d/*", "d/**", "**/a", "**/*.py", "\\*", "\\\\", "a b", "d/e/*", "*/a",
                "e/**", "d/*/a", "**/e/*", "*/*", "a*", "*b", "b.py", "**/", "d", "d/", "./a", "e/a", "**/d/**",
                "\\a", "*\\*", "**.py", "d/**/b.py", "d/d/../a",
-               "d**", "d**.py", "**b.py", "e**/a", "d**/a", "d/e**", "*/e/**", "a**"]
+               "d**", "d**.py", "**b.py", "e**/a", "d**/a", "d/e**", "*/e/**", "a**",
+               ".a", ".d/**", "..a", ".*", "*/.a", "**/.a", ".d/.a", ".e/a", "e/a"]
 PLUMB_NAMES = ["a", "b.py", "*", "\\", "a b"]
 PLUMB_DIRS = ["", "d/", "e/", "d/e/", "d/d/", "dd/", "d2/", "d-e/", "d/e2/"]   # incl. siblings whose name extends the REUSE.toml directory's name
-PLUMB_EXTRA = ["da", "d.py", "d/ea"]
+PLUMB_EXTRA = ["da", "d.py", "d/ea",
+               # names that begin with dots (and their dot-less twins)
+               ".a", "d/.a", ".d/a", "..a", "d/..a", ".d/.a", "d/e/.a", "d/.e/a", "d/e/a"]
 
 
 def evaluate_plumb(case) -> R:
